@@ -184,6 +184,17 @@ Theorem C04_prints_admitted_drop_polarized : forall md txt p p',
       (labels (res_config (exec_run fuel pick md (p_types p') (p_funs p') (init_config p')))) C'.
 Proof. exact prints_admitted_drop_md. Qed.
 
+(* the first sentence of C04 for contraction-free programs (linear connectives + weakening): the labels of a
+   terminating run are printed by the reference semantics, and every schedule prints the same multiset *)
+Theorem C04_results_unique_admitted : forall md txt p p' pick1 f1 t1,
+  is_np md = false ->
+  parse_string txt = POk p -> typecheck p = Accept p' -> in_fragment p' -> nosplit_program p' = true ->
+  exec_run f1 pick1 md (p_types p') (p_funs p') (init_config p') = RQuiescent t1 ->
+  (exists C', sax_steps (p_funs p') true (sax_init p') (labels t1) C') /\
+  (forall pick2 f2, (f1 <= f2)%nat ->
+     exists t2, exec_run f2 pick2 md (p_types p') (p_funs p') (init_config p') = RQuiescent t2 /\ labels t2 ≡ₚ labels t1).
+Proof. exact results_unique_admitted. Qed.
+
 Theorem C04_prints_admitted_drop_text : forall txt, c04_drop_text txt = true ->
   exists p p', parse_string txt = POk p /\ typecheck p = Accept p' /\
   forall fuel pick, exists C',
@@ -294,6 +305,7 @@ Print Assumptions C04_refines_sax_drop.
 Print Assumptions C04_dropcfg_step.
 Print Assumptions C04_prints_admitted_drop.
 Print Assumptions C04_prints_admitted_drop_polarized.
+Print Assumptions C04_results_unique_admitted.
 Print Assumptions C04_prints_admitted_drop_text.
 Print Assumptions C04_ex_drop.
 Print Assumptions C04_tres_from_typing.
